@@ -149,6 +149,40 @@ def run(ctx: Ctx, env):
                     skip_ok = True
             if not any(isinstance(x, ast.If) for x in ast.walk(n)):
                 skip_ok = True  # unconditional join: nothing is skipped
+    # the skip decision must be able to tell relationships of different models apart: a test that looks only
+    # at the relationship's bare attribute name (.key) skips a needed join when another model has a relationship of that name
+    for n in ast.walk(fn):
+        if isinstance(n, ast.For) and "join_relationships" in ast.unparse(n.iter) and isinstance(n.target, ast.Name):
+            var = n.target.id
+            for x in ast.walk(n):
+                if isinstance(x, ast.If):
+                    bare = False
+                    attrs = set()
+                    for y in ast.walk(x.test):
+                        if isinstance(y, ast.Attribute) and isinstance(y.value, ast.Name) and y.value.id == var:
+                            attrs.add(y.attr)
+                    for y in ast.walk(x.test):
+                        if isinstance(y, ast.Name) and y.id == var:
+                            parent_attr = any(isinstance(z, ast.Attribute) and z.value is y for z in ast.walk(x.test))
+                            if not parent_attr:
+                                bare = True
+                    ctx.check(bare or not attrs, "R3.join-skip-identifies-the-relationship", "sqlalchemy.apply_odata_query|skip-test",
+                              f"the decision to skip a join looks only at `{var}.{'/'.join(sorted(attrs))}`: a relationship with the same name on another "
+                              "model already joined on the query makes the needed join disappear", m.loc(x),
+                              "base query joined on Ticket.owner, filter project/owner/name eq 'Core'")
+    helper = m.functions.get("_get_joined_attrs") if hasattr(m, "functions") else None
+    if helper is not None:
+        interp = env.interp()
+        hp = interp.explore(lambda it: (m, helper, [Sym("param", "query")], {}, None))
+        for p in hp:
+            if p.outcome != "return":
+                continue
+            t = T.norm(p.value)
+            # every element must be the identity str(<join target>) of an existing join, unabridged
+            lossy = [w for w in ("split", "rsplit", "partition", "rpartition", "slice", "lower", "upper") if f"'{w}'" in repr(t) or f".{w}(" in T.show(t, 2000)]
+            ctx.check(not lossy, "R3.existing-joins-unabridged", "sqlalchemy._get_joined_attrs",
+                      f"existing joins are reported as `{T.show(t, 120)}`: anything but the full str(<join target>) lets different relationships collide",
+                      m.loc(helper), "base query joined on Ticket.owner, filter project/owner/name eq 'Core'")
     ctx.check(skip_ok, "R3.join-skipped-only-if-present", "sqlalchemy.apply_odata_query|skip-test",
               "the join loop must either join every collected relationship or skip exactly those already joined on the incoming query", m.loc(fn))
 
